@@ -24,11 +24,14 @@ def sh(cmd, cwd=None):
 
 def main():
     sid = sys.argv[1]
-    d = os.path.join(V, "seeded", sid)
+    # --root benign: behaviour-preserving changes kept under /verif/benign/<id>/; every check must stay quiet
+    root = sys.argv[sys.argv.index("--root") + 1] if "--root" in sys.argv else "seeded"
+    d = os.path.join(V, root, sid)
     meta = json.load(open(os.path.join(d, "meta.json")))
     tier = "quick"
     jobs = 6
-    props = [meta["property"]]
+    allp = [c["property_id"] for c in json.load(open(os.path.join(V, "MANIFEST.json")))["checks"]]
+    props = [meta["property"]] if "property" in meta else allp
     a = sys.argv[2:]
     i = 0
     while i < len(a):
@@ -36,6 +39,8 @@ def main():
             props = a[i + 1].split(","); i += 1
         elif a[i] == "--all":
             props = [c["property_id"] for c in json.load(open(os.path.join(V, "MANIFEST.json")))["checks"]]
+        elif a[i] == "--root":
+            i += 1
         elif a[i] == "--jobs":
             jobs = int(a[i + 1]); i += 1
         elif a[i] == "--tier":
@@ -77,7 +82,7 @@ def main():
         desc = [l for l in out.split("\n") if l.startswith("# ")][:3]
         r = {"exit": rc, "violations": viol[:5], "why": desc, "wall_s": round(time.time() - t0, 1),
              "concrete": any("no-failing-input-found" not in v for v in viol)}
-        print(p, "->", "DETECTED" if viol else "missed", "(concrete input)" if r["concrete"] else "", desc[:1], flush=True)
+        print(p, "->", ("ALARM" if root == "benign" else "DETECTED") if viol else ("quiet" if root == "benign" else "missed"), "(concrete input)" if r["concrete"] else "", desc[:1], flush=True)
         return p, r
 
     try:
